@@ -321,6 +321,8 @@ struct Observed {
     actor_dead: bool,
     /// transport family: oracle failures found by the scenario itself (name, detail)
     transport_bad: Vec<(String, String)>,
+    /// the acceptor reported a failure of its closing step (evidence for script 6)
+    close_failure_seen: bool,
 }
 
 const DEADLINE: Duration = Duration::from_secs(5);
@@ -997,6 +999,41 @@ async fn scenario_hostile(acceptor_under_test: bool, script: u8, variant: u8, de
                     let _ = send.finish();
                     let _ = recv.read_to_end(1 << 20).await;
                 }
+                6 => {
+                    // a complete, correct exchange — and then one byte too many while the
+                    // acceptor is closing the session (its closing step fails, not the exchange)
+                    let mut trailing = false;
+                    while let Some(f) = peer.next_correct_frame() {
+                        if send.write_all(&f).await.is_err() {
+                            break;
+                        }
+                        let reply = tokio::time::timeout(Duration::from_millis(400), async {
+                            let mut len = [0u8; 4];
+                            recv.read_exact(&mut len).await.ok()?;
+                            let mut buf = vec![0u8; u32::from_be_bytes(len) as usize];
+                            recv.read_exact(&mut buf).await.ok()?;
+                            let mut b = BytesMut::new();
+                            b.extend_from_slice(&len);
+                            b.extend_from_slice(&buf);
+                            verif_codec::decode(&mut b).ok().flatten()
+                        })
+                        .await;
+                        match reply {
+                            Ok(Some(frame)) => peer.absorb(Some(frame)),
+                            _ => {
+                                // no reply: the acceptor has answered its last message and is closing
+                                let _ = send.write_all(&[0xEE]).await;
+                                trailing = true;
+                                break;
+                            }
+                        }
+                    }
+                    let _ = send.finish();
+                    let _ = recv.read_to_end(1 << 20).await;
+                    tokio::time::sleep(Duration::from_millis(50)).await;
+                    ep_a.close().await;
+                    return if trailing { "trailing".into() } else { "done".into() };
+                }
                 _ => {
                     let msg = peer.sut.sync_initial(ns_id(0)).expect("initial");
                     let f = encode(Frame::Init { namespace: ns_id(1), message: msg });
@@ -1011,7 +1048,23 @@ async fn scenario_hostile(acceptor_under_test: bool, script: u8, variant: u8, de
         });
         match tokio::time::timeout(deadline, async { tokio::join!(sut, hostile) }).await {
             Err(_) => obs.hang = true,
-            Ok((Ok(Ok(res)), _)) => {
+            Ok((Ok(Ok(res)), hostile_did)) => {
+                let trailing = matches!(&hostile_did, Ok(s) if s == "trailing");
+                if script == 6 {
+                    // (evidence: how the closing-step scenarios ended)
+                    if let Err(e) = &res {
+                        if matches!(e, iroh_docs::net::AcceptError::Close { .. }) {
+                            obs.close_failure_seen = true;
+                        }
+                        // the request was allowed, the exchange ran: whatever fails afterwards, the
+                        // acceptor can say which session (peer and document) it is reporting on
+                        if e.namespace() != Some(ns_id(0)) {
+                            bad.push(("acceptor_error_names_peer_and_document".into(), format!("the request was allowed and the exchange ran; the acceptor then reports {:?} with namespace()={:?}: the session cannot be attributed", short(&format!("{e:?}")), e.namespace().map(|n| n.fmt_short().to_string()))));
+                        }
+                    } else if trailing {
+                        bad.push(("hostile_peer_is_an_error".into(), "the acceptor reported success although the peer sent a byte after the end of the session".into()));
+                    }
+                }
                 obs.into_outcome = "ok".into();
                 obs.sut_result = match &res {
                     Ok(_) => "Ok".into(),
@@ -1020,7 +1073,8 @@ async fn scenario_hostile(acceptor_under_test: bool, script: u8, variant: u8, de
                 match &res {
                     Ok(f) => {
                         // only script 4 can end well: the peer sent a correct request and then nothing
-                        if script != 4 {
+                        // (and script 6 when the last message of the exchange was the acceptor's)
+                        if script != 4 && script != 6 {
                             bad.push(("hostile_peer_is_an_error".into(), format!("the acceptor reported success ({} sent, {} received) although the peer misbehaved (script {script})", f.outcome.num_sent, f.outcome.num_recv)));
                         }
                     }
@@ -1119,8 +1173,8 @@ async fn scenario_hostile(acceptor_under_test: bool, script: u8, variant: u8, de
         ep_b.close().await;
     }
     // a peer that sent no valid entries leaves the store as it was (scripts without a complete
-    // exchange of entries: all but 2 and 4)
-    if !matches!(script, 2 | 4) && !obs.hang {
+    // exchange of entries: all but 2, 4 and 6)
+    if !matches!(script, 2 | 4 | 6) && !obs.hang {
         let after = handle_dump(&handle, ns_id(0)).await.ok();
         if after != before {
             obs.store_changed_on_reject = true;
@@ -1278,6 +1332,9 @@ fn one(report: &mut Report, case: Case, nontrivial: bool, ordinal: u64) {
             if obs.counters_mirror.is_some() {
                 report.count("complete_sessions_with_mirrored_counters_checked", 1);
             }
+            if obs.close_failure_seen {
+                report.count("acceptor_closing_step_failures_observed", 1);
+            }
             for (o, w, d) in judge(&obs, &what) {
                 report.violation(o, w, cj.clone(), d, ordinal);
             }
@@ -1432,7 +1489,10 @@ fn run(ctx: &Ctx, report: &mut Report) {
     let variants: Vec<u8> = if ctx.quick() { vec![0, 3] } else { vec![0, 1, 2, 3] };
     for variant in variants {
         for acceptor_under_test in [true, false] {
-            for script in 0..=5u8 {
+            for script in 0..=6u8 {
+                if script == 6 && !acceptor_under_test {
+                    continue;
+                }
                 ordinal += 1;
                 if !ctx.mine(ordinal) {
                     continue;
